@@ -33,8 +33,33 @@ static void emit(unsigned w, uint64_t v, unsigned sgn, int base, unsigned len) {
 
 static const int bases[] = {2, 8, 10, 16, 0, 7, -1, 3, 100};
 
+/* independent formatter: libc for bases 8, 10, 16, bit loop for base 2 */
+static size_t ref_fmt(uint32_t v, int sgn, int base, char *out) {
+    if (base == 10) return (size_t) (sgn ? sprintf(out, "%d", (int32_t) v) : sprintf(out, "%u", v));
+    if (base == 16) return (size_t) sprintf(out, "%X", v);
+    if (base == 8) return (size_t) sprintf(out, "%o", v);
+    { int i, k = 0; if (!v) { strcpy(out, "0"); return 1; } for (i = 31; i >= 0; i--) if (k || ((v >> i) & 1)) out[k++] = (char)('0' + ((v >> i) & 1)); out[k] = 0; return (size_t) k; }
+}
+
+/* thorough only: ALL 2^32 values x {signed, unsigned} x bases {2, 8, 10, 16} against the independent formatter, in C;
+ * one summary line per shard:  IFULL <lo> <hi> => <evaluations> <mismatches> <first mismatching case or -> */
+static void intfmt_exhaustive(void) {
+    uint64_t lo = ((uint64_t) h_shard << 32) / h_nshards, hi = ((uint64_t)(h_shard + 1) << 32) / h_nshards, v, evals = 0, bad = 0;
+    static const int bs[] = {2, 8, 10, 16}; char got[40], want[40], first[80] = "-";
+    for (v = lo; v < hi; v++) {
+        int sgn, b;
+        for (sgn = 0; sgn < 2; sgn++) for (b = 0; b < 4; b++) {
+            size_t r = UInt32ToStrBaseSign((uint32_t) v, got, sizeof got, (int8_t) bs[b], sgn ? TRUE : FALSE), w = ref_fmt((uint32_t) v, sgn, bs[b], want);
+            evals++;
+            if (r != w || memcmp(got, want, w + 1) != 0) { if (!bad) snprintf(first, sizeof first, "%u/%d/%d", (uint32_t) v, sgn, bs[b]); bad++; }
+        }
+    }
+    printf("IFULL %" PRIu64 " %" PRIu64 " => %" PRIu64 " %" PRIu64 " %s\n", lo, hi, evals, bad, first);
+}
+
 void dom_intfmt(void) {
     unsigned w, sgn, bi, len; int k; uint64_t n;
+    if (h_thorough) intfmt_exhaustive();
     /* boundary values: 0, 1, powers of each base and neighbours, sign boundaries, all ones */
     for (w = 32; w <= 64; w += 32) {
         uint64_t top = w == 32 ? 0xFFFFFFFFull : ~0ull;
